@@ -118,9 +118,11 @@ func init() {
 
 	// ---- R18 ---------------------------------------------------------------
 	mutant(&Mutant{Name: "eval-late-clear", Props: []string{"C18"}, File: fScripts,
-		Old: "\t\t\t\"EVAL_CMD\": lua.LString(msg.Command()),\n\t\t})\n\t// Clear the per-call globals on every exit, including the error returns\n\t// below; otherwise the state goes back to the pool with EVAL_CMD still\n\t// set and the next WHEREEVAL script using it could run write commands.\n\tdefer luaSetRawGlobals(",
-		New: "\t\t\t\"EVAL_CMD\": lua.LString(msg.Command()),\n\t\t})\n\tif scriptIsSha && len(script) != 40 {\n\t\treturn NOMessage, errShaNotFound\n\t}\n\tdefer luaSetRawGlobals(",
+		Old: "\tluaSetEvalCmd(luaState, lua.LString(msg.Command()))\n", New: "\tluaSetEvalCmd(luaState, lua.LString(msg.Command()))\n\tif scriptIsSha && len(script) != 40 {\n\t\treturn NOMessage, errShaNotFound\n\t}\n",
 		Expect: "R18.per-call-globals", Key: "cmdEvalUnified", Why: "an early return between the set and the deferred clear (shape of the repaired defect)"})
+	mutant(&Mutant{Name: "evalcmd-in-global", Props: []string{"C18"}, File: fScripts,
+		Old: "\t\tevalCmd = luaGetEvalCmd(ls)\n", New: "\t\tevalCmd = ls.GetGlobal(\"EVAL_CMD\").String()\n",
+		Expect: "R18.class-binding", Key: "selector-not-script-writable", Why: "reverse of the registry fix: the class selector is a script-writable global"})
 	mutant(&Mutant{Name: "sandbox-open-io", Props: []string{"C18"}, File: fScripts,
 		Old: "\t\t{lua.OsLibName, openOsSubset}, // See below for impl, only opens clock/difftime\n", New: "\t\t{lua.OsLibName, openOsSubset}, // See below for impl, only opens clock/difftime\n\t\t{lua.IoLibName, lua.OpenIo},\n",
 		Expect: "R18.sandbox-env", Key: "OpenIo", Why: "the io library is opened"})
@@ -145,7 +147,7 @@ func init() {
 		Old: "func (whereeval whereevalT) Close() {\n\tluaSetRawGlobals(\n\t\twhereeval.luaState, map[string]lua.LValue{\n\t\t\t\"ARGV\": lua.LNil,\n\t\t})\n", New: "func (whereeval whereevalT) Close() {\n",
 		Expect: "R18.per-call-globals", Key: "Close", Why: "ARGV of a WHEREEVAL survives in the pooled state"})
 	mutant(&Mutant{Name: "evalcmd-from-arg", Props: []string{"C18"}, File: fScripts,
-		Old: "\t\t\t\"EVAL_CMD\": lua.LString(msg.Command()),\n\t\t})\n\t// Clear", New: "\t\t\t\"EVAL_CMD\": lua.LString(\"eval\"),\n\t\t})\n\t// Clear",
+		Old: "\tluaSetEvalCmd(luaState, lua.LString(msg.Command()))\n", New: "\tluaSetEvalCmd(luaState, lua.LString(\"eval\"))\n",
 		Expect: "R18.class-binding", Key: "eval-cmd-setter", Why: "EVALRO scripts run in the read-write class"})
 
 	// ---- R9 ----------------------------------------------------------------
@@ -436,6 +438,11 @@ func init() {
 	mutant(&Mutant{Name: "scriptflush-no-resp-arm", Props: []string{"C17"}, File: fScripts,
 		Old: "\tcase RESP:\n\t\treturn resp.StringValue(\"OK\"), nil\n\t}\n\treturn resp.SimpleStringValue(\"\"), nil\n}\n\nfunc (s *Server) commandInScript", New: "\tcase Telnet:\n\t\treturn resp.StringValue(\"OK\"), nil\n\t}\n\treturn resp.SimpleStringValue(\"\"), nil\n}\n\nfunc (s *Server) commandInScript",
 		Expect: "R17.both-modes", Key: "cmdScriptFlush", Why: "RESP clients get an empty reply to SCRIPT FLUSH"})
+
+	mutant(&Mutant{Name: "eval-put-before-removecontext", Props: []string{"C16"}, File: fScripts,
+		Old: "\t// registered first so that it runs last: everything deferred below still\n\t// uses the state and must be done before it goes back to the pool.\n\tdefer s.luapool.Put(luaState)\n", New: "",
+		Edits: []Edit{{fScripts, "\t\tluaDeadline = lua.LNumber(float64(dlTime.UnixNano()) / 1e9)\n\t}\n", "\t\tluaDeadline = lua.LNumber(float64(dlTime.UnixNano()) / 1e9)\n\t}\n\tdefer s.luapool.Put(luaState)\n"}},
+		Expect: "R16.pool-pairing", Key: "put-runs-last", Why: "reverse of the defer-order fix"})
 
 	// ---- neutral variants --------------------------------------------------
 	mutant(&Mutant{Name: "neutral-rename-write-flag", Props: []string{"C03", "C07", "C15"}, Neutral: true, File: fScripts,
